@@ -305,6 +305,8 @@ def finding_classes(engine: str, case: Dict[str, Any]) -> List[str]:
     elif engine == "pa":
         if t == "UNION":
             out.append("pyarrow-union-unimplemented")
+        if t == "APPEND" and case["ls"] != case["rs"] and sorted(case["ls"]) == sorted(case["rs"]):
+            out.append("pyarrow-append-same-columns-other-order")  # findings.d/C12_history.json
         if t in JOINS4 and lk != rk:
             if len(lk) > 1:
                 out.append("pyarrow-multi-key-different-names")
